@@ -278,6 +278,10 @@ class Worker(threading.Thread):
                 self.job()
             except Exception as x:
                 log.exception("unhandled exception from job in worker thread %s: %s", self.name, x)
+            except BaseException as x:
+                # SystemExit and the like (a served method that calls sys.exit()) end the job, not this worker:
+                # a worker thread that dies here is never handed back and stays in the pool's busy set for ever
+                log.warning("job in worker thread %s ended with %s", self.name, type(x).__name__)
             self.job = None
             self.pool.notify_done(self)
         self.pool = None
